@@ -180,7 +180,7 @@ def gen(tape, sort, depth, ctx):
         if k == "store":
             return ["store", gen(tape, sort, d, ctx), gen(tape, sort[1], d, ctx), gen(tape, sort[2], d, ctx)]
         if k == "val" and sort[1] in (INT,) or (k == "val" and bp.is_bv(sort[1])):
-            n = tape.rint(0, 2, "rich.arrayval.n")
+            n = tape.rint(0, 3, "rich.arrayval.n")
             pairs = []
             seen = set()
             for _ in range(n):
